@@ -98,6 +98,26 @@ theorem ust_ok {w : World} {s : Addr} {paid : Bool} {t : Nat} {w' : World}
     all_goals simp_all
     all_goals omega
 
+theorem uet_ok {w : World} {s : Addr} {paid : Bool} {t : Nat} {w' : World}
+    (h : updateEnd w s paid t = .ok w') :
+    ∃ m e, w.m = some m ∧ w.v.oe = true ∧ adminOk m s paid = true ∧ m.stop = some e ∧ w.now < e ∧ w.now ≤ t ∧
+      m.start ≤ t ∧ w' = setMinter w { m with stop := some t } := by
+  unfold updateEnd at h
+  split at h
+  · simp at h
+  · rename_i m hm
+    split at h
+    · simp at h
+    · split at h
+      · simp at h
+      · split at h
+        · simp at h
+        · rename_i e he
+          refine ⟨m, e, hm, ?_⟩
+          repeat' (split at h)
+          all_goals simp_all
+          all_goals omega
+
 theorem newWl_ok {w : World} {p : Coin} {s e : Nat} {w' : World} (h : newWl w p s e = .ok w') :
     w' = { w with wls := w.wls ++ [⟨p, s, e⟩] } := by
   unfold newWl at h
@@ -286,6 +306,9 @@ theorem denomInv_step (w w' : World) (op : Op) (hinv : DenomInv w) (hok : step w
     subst h; exact hinv m' hm'
   · obtain ⟨h, _⟩ := mintOp_ok hok
     subst h; exact hinv m' hm'
+  · obtain ⟨m, _, hm, _, _, _, _, _, _, h⟩ := uet_ok hok
+    subst h; simp [setMinter] at hm'; subst hm'
+    exact hinv m hm
 
 theorem step'_eq_of_ok {w w' : World} {op : Op} (h : step w op = .ok w') : step' w op = w' := by
   simp [step', h]
@@ -367,6 +390,7 @@ theorem C07_floor_denom_native (v : Variant) (now : Nat) (fac : Factory) (hnat :
         · obtain ⟨hd, h⟩ := sudoMin_ok hok1; subst h; exact hd
         · have h := sudoAirdrop_ok hok1; subst h; exact h2
         · obtain ⟨h, _⟩ := mintOp_ok hok1; subst h; exact h2
+        · obtain ⟨_, _, _, _, _, _, _, _, _, h⟩ := uet_ok hok1; subst h; exact h2
       · rw [he]; exact ih w h1 h2
   have h0 : DenomInv (init v now fac) := by intro m hm; simp [init] at hm
   obtain ⟨hI, hN⟩ := key (init v now fac) ops h0 (by simpa [init] using hnat)
@@ -421,6 +445,9 @@ theorem C07_public_price_step (w w' : World) (op : Op) (m : Minter) (hm : w.m = 
   · obtain ⟨_, h⟩ := sudoMin_ok hok; subst h; exact ⟨m, hm, Nat.le_refl _, rfl, rfl⟩
   · have h := sudoAirdrop_ok hok; subst h; exact ⟨m, hm, Nat.le_refl _, rfl, rfl⟩
   · obtain ⟨h, _⟩ := mintOp_ok hok; subst h; exact ⟨m, hm, Nat.le_refl _, rfl, rfl⟩
+  · obtain ⟨m0, _, hm0, _, _, _, _, _, _, h⟩ := uet_ok hok
+    rw [hm] at hm0; cases hm0; subst h
+    exact ⟨_, rfl, Nat.le_refl _, rfl, rfl⟩
 
 /-- block time never runs backwards -/
 def MonotoneClock : World → List Op → Prop
@@ -444,6 +471,7 @@ theorem now_step (w w' : World) (op : Op) (hok : step w op = .ok w') :
   · obtain ⟨_, h⟩ := sudoMin_ok hok; subst h; simp
   · have h := sudoAirdrop_ok hok; subst h; simp
   · obtain ⟨h, _⟩ := mintOp_ok hok; subst h; simp
+  · obtain ⟨_, _, _, _, _, _, _, _, _, h⟩ := uet_ok hok; subst h; simp [setMinter]
 
 /-- history form: from any state in which the mint has started, after ANY sequence of operations (with a clock that
 does not run backwards) the public price is at most what it was, in the same denom, and the mint is still started -/
@@ -536,6 +564,8 @@ theorem C07_last_discount_frame (w w' : World) (op : Op) (m : Minter) (hm : w.m 
   · obtain ⟨_, h⟩ := sudoMin_ok hok; subst h; exact ⟨m, hm, rfl⟩
   · have h := sudoAirdrop_ok hok; subst h; exact ⟨m, hm, rfl⟩
   · obtain ⟨h, _⟩ := mintOp_ok hok; subst h; exact ⟨m, hm, rfl⟩
+  · obtain ⟨m0, _, hm0, _, _, _, _, _, _, h⟩ := uet_ok hok
+    rw [hm] at hm0; cases hm0; subst h; exact ⟨_, rfl, rfl⟩
 
 /-- the successful discount changes of a history, in order: `(true, t)` = discount set at `t`, `(false, t)` = removed at `t` -/
 def discEvent (w : World) (op : Op) : Option (Bool × Nat) :=
@@ -675,6 +705,8 @@ theorem discInv_step (w w' : World) (op : Op) (hinv : DiscInv w) (hok : step w o
   · obtain ⟨_, h⟩ := sudoMin_ok hok; subst h; exact hinv m' d hm' hd
   · have h := sudoAirdrop_ok hok; subst h; exact hinv m' d hm' hd
   · obtain ⟨h, _⟩ := mintOp_ok hok; subst h; exact hinv m' d hm' hd
+  · obtain ⟨m, _, hm, _, _, _, _, _, _, h⟩ := uet_ok hok
+    subst h; simp [setMinter] at hm'; subst hm'; exact hinv m d hm hd
 
 theorem discInv_run (w : World) (ops : List Op) (hinv : DiscInv w) : DiscInv (run w ops) := by
   induction ops generalizing w with
@@ -818,6 +850,134 @@ theorem C07_query_fields (w : World) (m : Minter) :
        | none => m.discount.getD m.price) :=
   ⟨rfl, rfl, rfl, rfl, rfl⟩
 
+/-! ## Open edition — the price rules specific to the family
+
+(`execute_create_minter` of the open-edition factory, `execute_update_mint_price` / `execute_update_end_time` of the three
+open-edition minters.) An edition WITHOUT a token cap is limited by its end time only, so it must never be free. -/
+
+/-- creation of an open edition: start strictly in the future, end after the start, and an edition without a token cap
+needs a non-zero price, a non-zero factory airdrop price and an end time; what is stored is what was asked for -/
+theorem C07_oe_create_rules (w w' : World) (c : Addr) (price : Coin) (start : Nat) (stop : Option Nat) (cap : Bool)
+    (wl : Option Nat) (hoe : w.v.oe = true) (hok : step w (.create c price start stop cap wl) = .ok w') :
+    w.now < start ∧ (∀ e, stop = some e → start < e) ∧
+    (cap = false → price.amount ≠ 0 ∧ w.fac.airdrop.amount ≠ 0 ∧ stop.isSome = true) ∧
+    w.fac.minPrice.amount ≤ price.amount ∧ w.fac.minPrice.denom = price.denom ∧
+    ∃ m', w'.m = some m' ∧ m'.price = price ∧ m'.stop = stop ∧ m'.hasCap = cap ∧ m'.discount = none ∧ m'.start = start := by
+  simp only [step, createMinter] at hok
+  split at hok
+  · rename_i hc
+    simp only [Except.ok.injEq] at hok; subst hok
+    simp only [createOk, hoe, if_true, Bool.and_eq_true, decide_eq_true_eq, Bool.or_eq_true] at hc
+    obtain ⟨⟨⟨⟨_, hd⟩, ha⟩, ⟨⟨hcap, hnow⟩, hend⟩⟩, _⟩ := hc
+    refine ⟨hnow, ?_, ?_, ha, hd, _, rfl, ?_⟩
+    · intro e he; subst he; simpa using hend
+    · intro hf; subst hf
+      have : (price.amount ≠ 0 ∧ w.fac.airdrop.amount ≠ 0) ∧ stop.isSome = true := by simpa using hcap
+      exact ⟨this.1.1, this.1.2, this.2⟩
+    · simp [freshMinter, hoe]
+  · simp at hok
+
+/-- `UpdateMintPrice` on an open edition: refused at or after the end time (`now >= end`), and an edition without a token
+cap never gets price 0 — on top of the family-independent rules (admin, floor, only lower once started) -/
+theorem C07_oe_update_rules (w w' : World) (s : Addr) (paid : Bool) (p : Nat) (hoe : w.v.oe = true)
+    (hok : step w (.updateMintPrice s paid p) = .ok w') :
+    ∃ m m', w.m = some m ∧ w'.m = some m' ∧ (∀ e, m.stop = some e → w.now < e) ∧ (m.hasCap = false → p ≠ 0) ∧
+      w.fac.minPrice.amount ≤ p ∧ (m.start ≤ w.now → p < m.price.amount) ∧ s = m.admin ∧
+      m'.price = ⟨m.price.denom, p⟩ ∧ m'.stop = m.stop ∧ m'.hasCap = m.hasCap := by
+  simp only [step] at hok
+  obtain ⟨m, hm, hadm, hlt, hmin, h⟩ := ump_ok hok
+  have hrules : (∀ e, m.stop = some e → w.now < e) ∧ (m.hasCap = false → p ≠ 0) := by
+    unfold updateMintPrice at hok
+    simp only [hm, hoe, Bool.true_and] at hok
+    constructor
+    · intro e he
+      rw [he] at hok
+      by_cases hl : e ≤ w.now
+      · exfalso; simp [hl] at hok; split at hok <;> cases hok
+      · omega
+    · intro hcap hp
+      subst hp
+      simp [hcap] at hok
+      repeat' (split at hok)
+      all_goals cases hok
+  subst h
+  simp [adminOk] at hadm
+  exact ⟨m, _, hm, rfl, hrules.1, hrules.2, hmin, hlt, hadm.2, rfl, rfl, rfl⟩
+
+/-- `UpdateEndTime`: open edition only, admin, nonpayable; an end time must exist and must not have passed; the new one is
+neither in the past nor before the start; nothing but `end_time` changes -/
+theorem C07_oe_end_rules (w w' : World) (s : Addr) (paid : Bool) (t : Nat)
+    (hok : step w (.updateEnd s paid t) = .ok w') :
+    ∃ m m' e, w.m = some m ∧ w'.m = some m' ∧ w.v.oe = true ∧ s = m.admin ∧ paid = false ∧ m.stop = some e ∧
+      w.now < e ∧ w.now ≤ t ∧ m.start ≤ t ∧ m' = { m with stop := some t } ∧ w'.fac = w.fac ∧ w'.now = w.now := by
+  simp only [step] at hok
+  obtain ⟨m, e, hm, hoe, hadm, he, h1, h2, h3, h⟩ := uet_ok hok
+  subst h
+  simp [adminOk] at hadm
+  exact ⟨m, _, e, hm, rfl, hoe, hadm.2, hadm.1, he, h1, h2, h3, rfl, rfl, rfl⟩
+
+theorem v_step (w w' : World) (op : Op) (hok : step w op = .ok w') : w'.v = w.v := by
+  cases op <;> simp only [step] at hok
+  · simp at hok; subst hok; rfl
+  · have := newWl_ok hok; subst this; rfl
+  · obtain ⟨_, _, _, _, _, h⟩ := create_ok hok; subst h; rfl
+  · obtain ⟨_, _, _, _, _, h⟩ := ump_ok hok; subst h; rfl
+  · obtain ⟨_, _, _, _, _, _, _, _, h⟩ := udp_ok hok; subst h; rfl
+  · obtain ⟨_, _, _, _, _, h⟩ := rdp_ok hok; subst h; rfl
+  · obtain ⟨_, _, _, _, _, _, _, _, _, _, h⟩ := swl_ok hok; subst h; rfl
+  · obtain ⟨_, _, _, _, _, h⟩ := ust_ok hok; subst h; rfl
+  · obtain ⟨_, h⟩ := sudoMin_ok hok; subst h; rfl
+  · have h := sudoAirdrop_ok hok; subst h; rfl
+  · obtain ⟨h, _⟩ := mintOp_ok hok; subst h; rfl
+  · obtain ⟨_, _, _, _, _, _, _, _, _, h⟩ := uet_ok hok; subst h; rfl
+
+/-- an open edition without a token cap has a non-zero public price -/
+def UncapInv (w : World) : Prop := ∀ m, w.m = some m → m.hasCap = false → m.price.amount ≠ 0
+
+theorem uncapInv_step (w w' : World) (op : Op) (hoe : w.v.oe = true) (hinv : UncapInv w) (hok : step w op = .ok w') :
+    UncapInv w' := by
+  intro m' hm' hcap
+  cases op
+  case create c price start stop cap wl =>
+    obtain ⟨_, _, hun, _, _, m1, hm1, hp, _, hc, _⟩ := C07_oe_create_rules w w' c price start stop cap wl hoe hok
+    rw [hm1] at hm'; cases hm'
+    rw [hp]; exact (hun (by rw [← hc]; exact hcap)).1
+  case updateMintPrice s pd p =>
+    obtain ⟨m, m1, hm, hm1, _, hnz, _, _, _, hp, _, hc⟩ := C07_oe_update_rules w w' s pd p hoe hok
+    rw [hm1] at hm'; cases hm'
+    rw [hp]; exact hnz (by rw [← hc]; exact hcap)
+  all_goals
+    simp only [step] at hok
+  · simp at hok; subst hok; exact hinv m' hm' hcap
+  · have := newWl_ok hok; subst this; exact hinv m' hm' hcap
+  · obtain ⟨m, hm, hv, _⟩ := udp_ok hok; rw [hoe] at hv; cases hv
+  · obtain ⟨m, hm, hv, _⟩ := rdp_ok hok; rw [hoe] at hv; cases hv
+  · obtain ⟨m, x, hm, _, _, _, _, _, _, _, h⟩ := swl_ok hok
+    subst h; simp [setMinter] at hm'; subst hm'; exact hinv m hm hcap
+  · obtain ⟨m, hm, _, _, _, h⟩ := ust_ok hok
+    subst h; simp [setMinter] at hm'; subst hm'; exact hinv m hm hcap
+  · obtain ⟨_, h⟩ := sudoMin_ok hok; subst h; exact hinv m' hm' hcap
+  · have h := sudoAirdrop_ok hok; subst h; exact hinv m' hm' hcap
+  · obtain ⟨h, _⟩ := mintOp_ok hok; subst h; exact hinv m' hm' hcap
+  · obtain ⟨m, _, hm, _, _, _, _, _, _, h⟩ := uet_ok hok
+    subst h; simp [setMinter] at hm'; subst hm'; exact hinv m hm hcap
+
+/-- history form: on an open-edition factory, after ANY sequence of operations, an edition without a token cap is never
+free (its public price is non-zero) -/
+theorem C07_oe_uncapped_never_free (v : Variant) (hv : v.oe = true) (now : Nat) (fac : Factory) (ops : List Op) (m : Minter)
+    (hm : (run (init v now fac) ops).m = some m) (hcap : m.hasCap = false) : m.price.amount ≠ 0 := by
+  have key : ∀ (w : World) (ops : List Op), w.v.oe = true → UncapInv w → UncapInv (run w ops) := by
+    intro w ops
+    induction ops generalizing w with
+    | nil => intro _ h; exact h
+    | cons o os ih =>
+      intro h1 h2
+      simp only [run, List.foldl_cons]
+      rcases step'_cases w o with ⟨w1, hok1, he⟩ | he
+      · rw [he]; exact ih w1 (by rw [v_step w w1 o hok1]; exact h1) (uncapInv_step w w1 o h1 h2 hok1)
+      · rw [he]; exact ih w h1 h2
+  exact key (init v now fac) ops hv (by intro m hm; simp [init] at hm) m hm hcap
+
 /-! ## Frame — which message can change what (used for "any other message" in `Props/C07X.lean`) -/
 
 /-- If a successful step changed the public price, it was the admin's `UpdateMintPrice`; the discount: one of the two
@@ -865,6 +1025,9 @@ theorem C07_price_frame (w w' : World) (op : Op) (m m' : Minter) (hm : w.m = som
   · obtain ⟨_, h⟩ := sudoMin_ok hok; subst h; simp at hm'; rw [hm] at hm'; cases hm'; simp
   · have h := sudoAirdrop_ok hok; subst h; simp at hm'; rw [hm] at hm'; cases hm'; simp
   · obtain ⟨h, _⟩ := mintOp_ok hok; subst h; rw [hm] at hm'; cases hm'; simp
+  · obtain ⟨m0, _, hm0, _, _, _, _, _, _, h⟩ := uet_ok hok
+    rw [hm] at hm0; cases hm0; subst h; simp [setMinter] at hm'; subst hm'
+    exact ⟨by simp, by simp, by simp, by simp, by simp⟩
 
 /-- the factory minimum is moved by governance only (`sudo UpdateParams`), to a native-denom coin -/
 theorem C07_floor_frame (w w' : World) (op : Op) (hok : step w op = .ok w')
@@ -881,6 +1044,7 @@ theorem C07_floor_frame (w w' : World) (op : Op) (hok : step w op = .ok w')
   · obtain ⟨hd, h⟩ := sudoMin_ok hok; subst h; exact ⟨_, rfl, hd, rfl⟩
   · have h := sudoAirdrop_ok hok; subst h; simp at hne
   · obtain ⟨h, _⟩ := mintOp_ok hok; subst h; simp at hne
+  · obtain ⟨_, _, _, _, _, _, _, _, _, h⟩ := uet_ok hok; subst h; simp [setMinter] at hne
 
 /-! ## Non-vacuity: the hypotheses above are satisfiable by concrete histories (vending-minter, floor 50 ustars) -/
 
@@ -914,5 +1078,24 @@ example : GovKeepsDenom exW0 (exOps ++ [.sudoMin ⟨0, 70⟩]) := by
   simp only [GovKeepsDenom, keepsDenom, exOps, List.cons_append, List.nil_append, and_true, true_and]; decide
 example : MonotoneClock exW0 exOps := by
   simp only [MonotoneClock, exOps, and_true, true_and]; decide
+
+/-! ### open edition (open-edition-minter, floor 50, airdrop 7) -/
+def exOE : World := init (variantOf 6) exT0 { minPrice := ⟨0, 50⟩, airdrop := ⟨0, 7⟩, feeBps := 1000 }
+def exOEOps : List Op := [.create 10 ⟨0, 1000⟩ (exT0 + HOUR) (some (exT0 + 5 * HOUR)) false none]
+/-- an uncapped edition with price, airdrop price and end time is created; with price 0 / without an end time it is not -/
+example : (run exOE exOEOps).m.map (fun m => (m.price, m.stop, m.hasCap)) = some (⟨0, 1000⟩, some (exT0 + 5 * HOUR), false) := by decide
+example : (run { exOE with fac := { exOE.fac with minPrice := ⟨0, 0⟩ } } [.create 10 ⟨0, 0⟩ (exT0 + HOUR) (some (exT0 + 5 * HOUR)) false none]).m = none := by decide
+example : (run exOE [.create 10 ⟨0, 1000⟩ (exT0 + HOUR) none false none]).m = none := by decide
+/-- one nanosecond before the end a price cut is accepted, at the end it is refused -/
+example : (run exOE (exOEOps ++ [.setTime (exT0 + 5 * HOUR - 1), .updateMintPrice 10 false 900])).m.map (·.price.amount) = some 900 := by decide
+example : (run exOE (exOEOps ++ [.setTime (exT0 + 5 * HOUR), .updateMintPrice 10 false 900])).m.map (·.price.amount) = some 1000 := by decide
+/-- the admin extends the sale (before the end has passed): the cut at the OLD end time is then accepted; after the end nothing moves -/
+example : (run exOE (exOEOps ++ [.updateEnd 10 false (exT0 + 9 * HOUR), .setTime (exT0 + 5 * HOUR), .updateMintPrice 10 false 900])).m.map
+    (fun m => (m.price.amount, m.stop)) = some (900, some (exT0 + 9 * HOUR)) := by decide
+example : (run exOE (exOEOps ++ [.setTime (exT0 + 5 * HOUR), .updateEnd 10 false (exT0 + 9 * HOUR)])).m.map (·.stop) = some (some (exT0 + 5 * HOUR)) := by decide
+example : (run exOE (exOEOps ++ [.updateEnd 11 false (exT0 + 9 * HOUR)])).m.map (·.stop) = some (some (exT0 + 5 * HOUR)) := by decide
+example : (run exOE (exOEOps ++ [.updateEnd 10 false (exT0 + HOUR - 1)])).m.map (·.stop) = some (some (exT0 + 5 * HOUR)) := by decide
+/-- the vending family has no such message -/
+example : (step (run exW0 exOps) (.updateEnd 10 false (exT0 + 9 * HOUR))).toOption.isSome = false := by decide
 
 end LP
